@@ -104,7 +104,7 @@ class Parser(ICommParse):
 
     def frame_chinfo(self, chan: int) -> bytes:
         """Create a chinfo frame."""
-        _bytes = struct.pack("b", chan)
+        _bytes = struct.pack("B", chan)
         return self._frame.frame_create(EParseId.CHINFO, _bytes)
 
     def frame_enable(
